@@ -11,7 +11,7 @@ SPEC = dict(
              'equals the reference choice of dict.cpp (same iff constant and len>1 and k<2len-1, else long iff k<len, else short) and that this is '
              'the shortest admissible encoding with tie-break short<long<same (c10_label_kind, c10_label_minimal; arithmetic, no enumeration); that '
              'HashMap.serialize() — whenever it returns — yields a spec-valid Hashmap whose labels all use the reference constructor and whose '
-             'leaves are the map in key order (c10_canonical); and '
+             'leaves are the map in key order (c10_canonical); that two canonical trees with the same leaves are the same cell (c10_unique); and '
              'that parse_hashmap / HashMap.parse / from_cell / parse_hashmap_aug decode EVERY spec-valid Hashmap / HashmapAug tree, whatever '
              'label constructors it uses and with any edges replaced by pruned branches, returning exactly the leaves (and extras, in '
              'left/right/own order) of the non-pruned part (c10_parse_any*).',
@@ -19,7 +19,7 @@ SPEC = dict(
                    'append_dict_label; Model/Hashmap.lean as a hand transcription of utils.py/parse.py (tied by sampled differential correspondence: '
                    'every (len,max,same) with max<=40 (<=64 thorough), tie-break boundaries for max up to 1023, random valid non-canonical trees '
                    'with Merkle prunings through 8 parser entry points); the 200-line Python->Lean translator for the label functions; '
-                   'NOT proved: uniqueness of the canonical tree (c10_unique) — that the hash equals the on-chain one rests on c10_canonical + the sampled comparison with an independent Python transcription of dict.cpp, and on C01 (cell hash).',
+                   'that the hash equals the on-chain one rests on c10_canonical + c10_unique + Spec/Hashmap.lean being the reference format, on C01 (cell hash), and is cross-checked on samples against an independent Python transcription of dict.cpp.',
         technique='Lean 4 proof (label functions translated from source, hand model for tree/parse) + differential correspondence + independent reference serialiser',
     ),
     translators=[('hashmap/utils.py->Generated/LabelFns.lean', tr.regenerate)],
